@@ -96,10 +96,26 @@ def run(ctx):
                 if false_answer_implies_false(p, h, ["is_some(arg1.attrs)"]):
                     isome.append(c)
         work = [c for c in nz.calls() if c.name.endswith("UseTree::flatten") or c.name.endswith("UseTree::merge")
-                or any(x.endswith("normalize_use_trees_with_granularity::{closure#0}") for x in c.refs)]
+                or any(x.endswith("normalize_use_trees_with_granularity::{closure#0}") for x in c.refs)
+                or (p.fns.get(c.resolved or "") is not None and p.fns[c.resolved].crate == "rustfmt_nightly"
+                    and any(d.name.endswith("UseTree::merge") for d in p.fns[c.resolved].calls()))]
+        # a helper predicate of the opposite polarity: true only when nothing is attached (`has_nothing_attached(&tree)`)
+        from common import answer_implies
+        inverted = set()
+        for c in nz.calls():
+            h = p.fns.get(c.resolved or "")
+            if h is not None and h.crate == "rustfmt_nightly" and h.locals[0] == "bool" and c not in cc and c not in isome:
+                if answer_implies(p, h, True, [[("contains_comment(arg1)", False)]]):
+                    cc.append(c)
+                    inverted.add(id(c))
+                if answer_implies(p, h, True, [[("is_none(arg1.attrs)", True), ("is_some(arg1.attrs)", False)]]):
+                    isome.append(c)
+                    inverted.add(id(c))
         guards = []
         for g in cc + isome:
             for (sw, t_true, t_false) in bool_branches(nz, g.dest[0]):
+                if id(g) in inverted:
+                    t_true, t_false = t_false, t_true          # the edge on which nothing is attached plays the part of `false`
                 guards.append((g, sw, t_true, t_false))
         ok = bool(cc) and bool(isome) and bool(work)
         for w in work:
@@ -120,14 +136,18 @@ def run(ctx):
             r.undecidable(B, "normalize: guard or work calls not found (contains_comment=%d is_some=%d work=%d)" % (
                 len(cc), len(isome), len(work)))
         # merge only after find(share_prefix) = Some
-        mg = [c for c in nz.calls() if c.name.endswith("UseTree::merge")]
-        fd = [c for c in nz.calls() if c.declared == "std::iter::Iterator::find"]
         okm = False
-        if mg and fd:
-            closure_ok = any(any(cc2.name.endswith("UseTree::share_prefix") for cc2 in p.fns[x].calls()) for x in fd[0].refs if x in p.fns)
-            for e in result_edges(nz, fd[0]):
-                if e["ok"] is not None and all(edge_dominates(nz, (e["sw"], e["ok"]), m.bb) for m in mg):
-                    okm = closure_ok
+        holders = [nz] + [h for h in (p.fns.get(c.resolved or "") for c in nz.calls())
+                          if h is not None and h.crate == "rustfmt_nightly" and h.kind != "Closure"]
+        for hz in holders:
+            mg = [c for c in hz.calls() if c.name.endswith("UseTree::merge")]
+            fd = [c for c in hz.calls() if c.declared == "std::iter::Iterator::find"]
+            if mg and fd:
+                closure_ok = any(any(cc2.name.endswith("UseTree::share_prefix") for cc2 in p.fns[x].calls()) for x in fd[0].refs if x in p.fns)
+                for e in result_edges(hz, fd[0]):
+                    if e["ok"] is not None and all(edge_dominates(hz, (e["sw"], e["ok"]), m.bb) for m in mg):
+                        okm = closure_ok
+                break
         r.instance(B, "merge only after find(share_prefix)=Some", "ok" if okm else "violation", "%s:%d" % (nz.file, nz.line))
         if not okm:
             r.violation(B, "normalize: merge not gated by share_prefix",
@@ -225,10 +245,10 @@ def run(ctx):
         r.floor(C, n_it, 4, "iteration paths of group_imports")
 
 
-def visibility_tables(ctx):
+def visibility_tables(ctx, rid="R10-d"):
     """R10-d: equality of visibilities used by the merge guard"""
     p, r = ctx.p, ctx.r
-    D = r.rule("R10-d", "decision tables of utils::is_same_visibility and UseTree::same_visibility: same kind required; two "
+    D = r.rule(rid, "decision tables of utils::is_same_visibility and UseTree::same_visibility: same kind required; two "
                         "restricted visibilities are equal only when their whole restriction paths are (full string equality, or "
                         "a comparison that also compares the lengths); a missing visibility equals only Inherited")
     f = p.named("is_same_visibility", within="rustfmt_nightly::utils")
@@ -412,6 +432,18 @@ def flatten_never_imports_the_prefix(ctx, rid):
             for (sw, t_true, t_false) in bool_branches(f, g.dest[0]):
                 if edge_dominates(f, (sw, t_false), bb):
                     guarded = True
+        if not guarded:
+            # the same test as the predicate of an Iterator::filter the nested elements pass through
+            from common import answer_implies
+            for g in f.calls():
+                if (g.declared or g.name).endswith("Iterator::filter") or g.name.endswith("::filter"):
+                    for cid in g.refs:
+                        h = p.fns.get(cid)
+                        if h is not None and h.kind == "Closure" and answer_implies(p, h, True, [[("::is_empty(", False)]]):
+                            used = [x for x in f.derived_from_block_operands(bb) if x is g] if hasattr(f, "derived_from_block_operands") else None
+                            ops = [op for op in s[2][2] if op[0] != "k"]
+                            if any(g in f.derived_from(op[1][0])["calls"] for op in ops):
+                                guarded = True
         r.instance(rid, "flatten: nested tree non-empty before prefixing", "ok" if guarded else "violation", "%s:%d" % (f.file, s[3]))
         if not guarded:
             r.violation(rid, "UseTree::flatten prefixes a nested tree without knowing it is non-empty",
@@ -446,6 +478,46 @@ def flatten_callers_keep_attributes(ctx, rid):
                     return const_item(f, rv[1])
         return False
 
+    import common
+
+    def under_item_arm(f, op, at_bb):
+        if op[0] == "k":
+            return False
+        gr, gp = common._norm_place(f, op[1][0], op[1][1])
+        for bb2, i2, st2 in f.stmts():
+            if st2[0] == "=" and st2[2][0] == "discr" and "ImportGranularity" in str(st2[2][2]) \
+                    and common._norm_place(f, st2[2][1][0], st2[2][1][1]) == (gr, gp):
+                names = {int(v): nme for v, nme in st2[2][3]}
+                for sb in range(len(f.blocks)):
+                    t = f.term(sb)
+                    if t[0] == "switch" and common.op_local(t[1]) == st2[1][0]:
+                        for v, tg in t[2]:
+                            if names.get(int(v)) == "Item" and sum(1 for v2, tg2 in t[2] if tg2 == tg) == 1 \
+                                    and edge_dominates(f, (sb, tg), at_bb):
+                                return True
+        return False
+
+    def is_item(f, op, at_bb, depth=3):
+        if const_item(f, op) or under_item_arm(f, op, at_bb):
+            return True
+        if depth <= 0 or op[0] == "k":
+            return False
+        gr, gp = common._norm_place(f, op[1][0], op[1][1])
+        owner = f
+        if f.kind == "Closure" and gr == 1:
+            # a captured variable: look it up in the function that builds the closure
+            parent = p.fns.get(f.id.split("::{closure")[0])
+            if parent is None:
+                return False
+            gi = [i for i in range(1, parent.argc + 1) if "ImportGranularity" in parent.locals[i]]
+            if len(gi) != 1:
+                return False
+            owner, gr = parent, gi[0]
+        elif not (1 <= gr <= f.argc) or f.kind == "Closure":
+            return False
+        sites = [(g, d) for g in p.by_crate["rustfmt_nightly"] for d in g.calls() if d.resolved == owner.id]
+        return bool(sites) and all(len(d.args) >= gr and is_item(g, d.args[gr - 1], d.bb, depth - 1) for g, d in sites)
+
     for f in p.by_crate["rustfmt_nightly"]:
         if short(f.id).split("::{closure")[0].endswith("UseTree::flatten"):
             continue
@@ -453,7 +525,7 @@ def flatten_callers_keep_attributes(ctx, rid):
             if not c.name.endswith("imports::UseTree::flatten"):
                 continue
             n += 1
-            ok_const = len(c.args) > 1 and const_item(f, c.args[1])
+            ok_const = len(c.args) > 1 and is_item(f, c.args[1], c.bb)
             if not ok_const and f.kind == "Closure":
                 parent = p.fns.get(f.id.split("::{closure")[0])
                 if parent is not None:
@@ -462,6 +534,35 @@ def flatten_callers_keep_attributes(ctx, rid):
                     if gi and sites and all(len(d.args) >= gi[0] and const_item(g, d.args[gi[0] - 1]) for g, d in sites):
                         ok_const = True
             guarded = False
+            # under the `Item` arm of a match on the granularity parameter, the parameter *is* Item
+            if not ok_const and len(c.args) > 1 and c.args[1][0] != "k":
+                import common
+                gr, gp = common._norm_place(f, c.args[1][1][0], c.args[1][1][1])
+                for bb2, i2, st2 in f.stmts():
+                    if st2[0] == "=" and st2[2][0] == "discr" and "ImportGranularity" in str(st2[2][2]) \
+                            and common._norm_place(f, st2[2][1][0], st2[2][1][1]) == (gr, gp):
+                        names = {int(v): nme for v, nme in st2[2][3]}
+                        for sb in range(len(f.blocks)):
+                            t = f.term(sb)
+                            if t[0] == "switch" and common.op_local(t[1]) == st2[1][0]:
+                                for v, tg in t[2]:
+                                    if names.get(int(v)) == "Item" and sum(1 for v2, tg2 in t[2] if tg2 == tg) == 1 \
+                                            and edge_dominates(f, (sb, tg), c.bb):
+                                        ok_const = True
+            # a helper predicate that answers true only for trees without attributes
+            from common import answer_implies
+            for d in f.calls():
+                h = p.fns.get(d.resolved or "")
+                if h is None or h.crate != "rustfmt_nightly" or h.locals[0] != "bool" or d.dest[1]:
+                    continue
+                if answer_implies(p, h, True, [[("is_none(arg1.attrs)", True), ("is_some(arg1.attrs)", False)]]):
+                    for sw, tt, ff in bool_branches(f, d.dest[0]):
+                        if tt is not None and edge_dominates(f, (sw, tt), c.bb):
+                            guarded = True
+                elif answer_implies(p, h, False, [[("is_none(arg1.attrs)", True), ("is_some(arg1.attrs)", False)]]):
+                    for sw, tt, ff in bool_branches(f, d.dest[0]):
+                        if ff is not None and edge_dominates(f, (sw, ff), c.bb):
+                            guarded = True
             for d in f.calls():
                 last = d.name.rsplit("::", 1)[-1]
                 if last not in ("is_some", "is_none") or not d.args or d.args[0][0] == "k" or d.dest[1]:
